@@ -105,7 +105,7 @@ class GenProp(Prop):
         # two runs can be compared with each other only when both were driven by the same scripted permutations; a generator that
         # draws its permutations through something the script does not see (another RNG, another primitive) gives a different,
         # equally valid outcome on every run
-        scripted = not obs.get("unscripted_shuffles") and not any(len(case["draws"][k]) > 1 for k in obs.get("shuffles_missing") or [])
+        scripted = not obs.get("unscripted_shuffles") and not any(len(case["draws"][k]) > 0 for k in obs.get("shuffles_missing") or [])
         if obs["jds_out"] != jds or not obs["jds_input_untouched"]:
             f.append("jds-changed: joint degree sequence not carried through unchanged")
         for c in calls:
@@ -182,9 +182,8 @@ class GenProp(Prop):
                 if rows != c["result"]:
                     f.append("id-groups: rows sharing a motif id are not the edges returned by one build call")
                     break
-        ids_in_order = list(groups.keys())
-        if ids_in_order != sorted(ids_in_order) or any(not isinstance(m, int) for m in ids_in_order):
-            f.append("ids-not-increasing")
+        # (what the ids ARE - consecutive integers from 0 in this code - is compared with the model, not demanded by the property:
+        #  any scheme that gives distinct instances distinct ids satisfies it)
         # names
         pos = 0
         for c in calls:
